@@ -45,9 +45,12 @@
 //     called by generated code and are not exercised.
 //   - Depths: quick 5 for one value size per key kind and 4 for the other three (the value
 //     size does not change the shape of the state space), 2 (frompairs), 11 (arrays).
-//     thorough: every map scenario is run to the FIXPOINT of the search (no new state at the
-//     next level - reached at depth 8 - so every longer history over the alphabet ends in an
-//     already checked state), frompairs 4, arrays 17 (one 21).
+//     thorough: the paired scenarios are run to the FIXPOINT of the search (no new state at
+//     the next level - reached at depth 8 - so every longer history over the alphabet ends in
+//     an already checked state) instead of DESIGN's depth 7, the unpaired ones to depth 5,
+//     frompairs 3, arrays 17 for capacity 0/1, 12 for capacity 5, 15 for capacity 7 (a
+//     length-21 run, 4*10^6 states, took >10 CPU minutes and was dropped; capacity 7 covers a
+//     third growth chain 7->14->28 instead).
 //   - Leak detection is off (the property does not speak about leaks); the ASan quarantine is
 //     2 MiB (a use-after-free within the same or the next few operations is still caught; the
 //     default 256 MiB made the search 12x slower).
@@ -287,58 +290,65 @@ func scenarios(quick bool) (list []scenario, bound string) {
 	kinds := []string{"i32", "i64", "str", "bytes"}
 	vsizes := []string{"1", "4", "8", "24"}
 	starts := []string{"empty", "pre11", "pre12", "pre24"}
-	startCost := map[string]int{"empty": 10, "pre11": 22, "pre12": 12, "pre24": 12}
 	esizes := []string{"1", "4", "8", "24"}
+	// Every key kind has one "paired" value size that is searched deeper than the other
+	// three. The value size does not influence the shape of the state space (only the
+	// number of bytes copied), so the full kind x size cross is kept and only its depth is
+	// staggered to fit the budgets.
+	paired := map[string]string{"i32": "4", "i64": "8", "str": "24", "bytes": "1"}
+	// rough relative costs, for longest-first scheduling only
+	costAt := func(start string, deep bool) int {
+		c := map[string]int{"empty": 27, "pre11": 25, "pre12": 18, "pre24": 30}[start]
+		if !deep {
+			c /= 5
+		}
+		return c
+	}
+	var mdPaired, mdOther, fd int
+	type acfg struct {
+		esize, cap0 string
+		depth       int
+	}
+	var arrays []acfg
 	if quick {
-		// every key kind has one "paired" value size that is searched one level deeper
-		// than the other three (the value size does not influence the shape of the state
-		// space; the full kind x size cross is kept, only its depth is staggered to fit
-		// the 60 s budget)
-		paired := map[string]string{"i32": "4", "i64": "8", "str": "24", "bytes": "1"}
-		const mdPaired, mdOther, fd, ad = 5, 4, 2, 11
-		for _, k := range kinds {
-			for _, v := range vsizes {
-				md, mul := mdOther, 1
-				if paired[k] == v {
-					md, mul = mdPaired, 5
-				}
-				for _, s := range starts {
-					list = append(list, scenario{args: []string{"map", k, v, s, fmt.Sprint(md)}, cost: startCost[s] * mul, dl: md})
-				}
-				list = append(list, scenario{args: []string{"map", k, v, "frompairs", fmt.Sprint(fd)}, cost: 8, dl: fd})
-			}
-		}
+		mdPaired, mdOther, fd = 5, 4, 2
 		for _, e := range esizes {
-			for _, cap0 := range []string{"0", "5"} {
-				list = append(list, scenario{args: []string{"array", e, cap0, fmt.Sprint(ad)}, cost: 6, dl: ad})
-			}
+			arrays = append(arrays, acfg{e, "0", 11}, acfg{e, "5", 11}) // 4->8->16, 5->10->20
 		}
-		bound = fmt.Sprintf("map: set-histories of length<=%d (for the pairs i32/v4, i64/v8, str/v24, bytes/v1) resp. <=%d (the other 12 key-kind x value-size pairs; one level less to fit the quick budget) from each of {empty, 11, 12, 24 prefilled keys}, and of length<=%d from each of the 41 from_pairs prefixes; 8-key alphabet x 2 values, 4 key kinds x value sizes {1,4,8,24}; array: histories of length<=%d, element sizes {1,4,8,24} x initial capacity {0,5}",
-			mdPaired, mdOther, fd, ad)
 	} else {
-		// thorough: every map scenario runs to the FIXPOINT of the search (measured: reached
-		// at depth 8 with 5*10^4..2.5*10^5 states), i.e. every set-history of ANY length
-		// over the alphabet from these start states ends in a state that was checked.
-		const fd, ad, adDeep = 4, 17, 21
-		for _, k := range kinds {
-			for _, v := range vsizes {
-				for _, s := range starts {
-					list = append(list, scenario{args: []string{"map", k, v, s, fmt.Sprint(fixpointLimit)}, cost: startCost[s] * 10, dl: fixpointLimit})
-				}
-				list = append(list, scenario{args: []string{"map", k, v, "frompairs", fmt.Sprint(fd)}, cost: 60, dl: fd})
-			}
-		}
+		// thorough: the paired scenarios run to the FIXPOINT of the search (measured:
+		// reached at depth 8 with 5*10^4..2.5*10^5 states each), i.e. every set-history of
+		// ANY length over the alphabet from these start states ends in a checked state.
+		// All 64 scenarios to the fixpoint took 17 min wall, paired-fixpoint + depth 6 for
+		// the rest 11 min (both on a machine loaded by other jobs, load average 60-115), so
+		// the 48 unpaired ones are bounded at depth 5 and frompairs at 3.
+		mdPaired, mdOther, fd = fixpointLimit, 5, 3
 		for _, e := range esizes {
-			for _, cap0 := range []string{"0", "5"} {
-				list = append(list, scenario{args: []string{"array", e, cap0, fmt.Sprint(ad)}, cost: 40, dl: ad})
+			arrays = append(arrays, acfg{e, "0", 17}, acfg{e, "5", 12}) // 4->8->16->32, 5->10->20
+		}
+		arrays = append(arrays, acfg{"4", "1", 17}, acfg{"4", "7", 15}) // 7->14->28
+	}
+	for _, k := range kinds {
+		for _, v := range vsizes {
+			md := mdOther
+			if paired[k] == v {
+				md = mdPaired
 			}
+			for _, s := range starts {
+				list = append(list, scenario{args: []string{"map", k, v, s, fmt.Sprint(md)}, cost: costAt(s, paired[k] == v), dl: md})
+			}
+			list = append(list, scenario{args: []string{"map", k, v, "frompairs", fmt.Sprint(fd)}, cost: 4, dl: fd})
 		}
-		for _, cap0 := range []string{"1", "7"} {
-			list = append(list, scenario{args: []string{"array", "4", cap0, fmt.Sprint(ad)}, cost: 40, dl: ad})
-		}
-		list = append(list, scenario{args: []string{"array", "8", "5", fmt.Sprint(adDeep)}, cost: 2000, dl: adDeep})
-		bound = fmt.Sprintf("map: set-histories of EVERY length (search run to its fixpoint, depth limit %d; fixpoint reached is recorded per scenario) from each of {empty, 11, 12, 24 prefilled keys}, and of length<=%d from each of the 41 from_pairs prefixes; 8-key alphabet x 2 values, 4 key kinds x value sizes {1,4,8,24}; array: histories of length<=%d, element sizes {1,4,8,24} x initial capacity {0,5}, element size 4 also with capacity {1,7}; element size 8 / capacity 5 up to length %d (5->10->20->40)",
-			fixpointLimit, fd, ad, adDeep)
+	}
+	for _, a := range arrays {
+		list = append(list, scenario{args: []string{"array", a.esize, a.cap0, fmt.Sprint(a.depth)}, cost: 1 + a.depth/6, dl: a.depth})
+	}
+	if quick {
+		bound = fmt.Sprintf("map: set-histories of length<=%d (for the pairs i32/v4, i64/v8, str/v24, bytes/v1) resp. <=%d (the other 12 key-kind x value-size pairs; one level less to fit the quick budget) from each of {empty, 11, 12, 24 prefilled keys}, and of length<=%d from each of the 41 from_pairs prefixes; 8-key alphabet x 2 values, 4 key kinds x value sizes {1,4,8,24}; array: histories of length<=11, element sizes {1,4,8,24} x initial capacity {0,5}",
+			mdPaired, mdOther, fd)
+	} else {
+		bound = fmt.Sprintf("map: set-histories of EVERY length (search run to its fixpoint, depth limit %d; whether it was reached is recorded per scenario) for the pairs i32/v4, i64/v8, str/v24, bytes/v1 and of length<=%d for the other 12 key-kind x value-size pairs (lowered from the fixpoint to fit the 10 min budget on a loaded machine), from each of {empty, 11, 12, 24 prefilled keys}; length<=%d from each of the 41 from_pairs prefixes; 8-key alphabet x 2 values, 4 key kinds x value sizes {1,4,8,24}; array: element sizes {1,4,8,24} with initial capacity 0 up to length 17 (4->8->16->32) and capacity 5 up to length 12 (5->10->20); element size 4 also capacity 1 (length 17) and 7 (length 15, 7->14->28)",
+			fixpointLimit, mdOther, fd)
 	}
 	sort.SliceStable(list, func(i, j int) bool { return list[i].cost > list[j].cost })
 	return
@@ -377,11 +387,6 @@ func Run(c *vl.Ctx) {
 	})
 	// stable order for everything that is reported; a second run of the same scenario
 	// name (thorough fixpoint runs) gets a suffix
-	for i := range results {
-		if results[i].sc.args[0] == "array" && results[i].sc.dl > 17 {
-			results[i].name += "-deep"
-		}
-	}
 	sort.SliceStable(results, func(i, j int) bool { return results[i].name < results[j].name })
 
 	var states, trans, mut, nviol int64
